@@ -95,6 +95,32 @@ Theorem C09_leave_call_closes : forall h sid s k tok,
   In tok (map snd s.(s_pubs) ++ map snd s.(s_subs)) -> ~ In tok (h_mcuopen (fst (leave_call h sid))).
 Proof. exact leave_call_closes. Qed.
 
+(* ... and the media server is told: a close request for each of them is among the outputs. *)
+Theorem C09_close_session_emits_close : forall h sid s tok,
+  get_sess h sid = Some s -> In tok (map snd s.(s_pubs) ++ map snd s.(s_subs)) -> In tok (h_mcuopen h) ->
+  In (ToMcu (MClose tok)) (snd (close_session h sid)).
+Proof. exact close_session_emits_close. Qed.
+Theorem C09_close_one_emits_close : forall h sid s tok,
+  get_sess h sid = Some s -> In tok (map snd s.(s_pubs) ++ map snd s.(s_subs)) -> In tok (h_mcuopen h) ->
+  In (ToMcu (MClose tok)) (snd (close_one h sid)).
+Proof. exact close_one_emits_close. Qed.
+Theorem C09_leave_room_emits_close : forall h sid n s k tok,
+  get_sess h sid = Some s -> s_room s = Some k -> is_virtual (s_kind s) = false ->
+  In tok (map snd s.(s_pubs) ++ map snd s.(s_subs)) -> In tok (h_mcuopen h) ->
+  In (ToMcu (MClose tok)) (snd (leave_room h sid n)).
+Proof. exact leave_room_emits_close. Qed.
+Theorem C09_leave_call_emits_close : forall h sid s k tok,
+  get_sess h sid = Some s -> s_room s = Some k -> is_virtual (s_kind s) = false ->
+  In tok (map snd s.(s_pubs) ++ map snd s.(s_subs)) -> In tok (h_mcuopen h) ->
+  In (ToMcu (MClose tok)) (snd (leave_call h sid)).
+Proof. exact leave_call_emits_close. Qed.
+(* losing the permission: the revocation closes the publisher there too *)
+Theorem C09_revoke_emits_close : forall h sid s stream tok,
+  get_sess h sid = Some s -> In (stream, tok) s.(s_pubs) ->
+  offer_allowed s.(s_perms) stream (match aget s.(s_pubmedia) tok with Some m => m | None => 0 end) = false ->
+  In tok (h_mcuopen h) -> In (ToMcu (MClose tok)) (snd (revoke h sid)).
+Proof. exact revoke_emits_close. Qed.
+
 (* No unowned duplicate: when a creation completes, the media server is told that it failed, or the
    new object is closed again in the same step, or it is open and in its owner's tables. *)
 Theorem C09_completion_owned_or_closed : forall h tok p ok,
@@ -134,3 +160,8 @@ Print Assumptions C09_close_one_closes.
 Print Assumptions C09_leave_room_closes.
 Print Assumptions C09_leave_call_closes.
 Print Assumptions C09_completion_owned_or_closed.
+Print Assumptions C09_close_session_emits_close.
+Print Assumptions C09_close_one_emits_close.
+Print Assumptions C09_leave_room_emits_close.
+Print Assumptions C09_leave_call_emits_close.
+Print Assumptions C09_revoke_emits_close.
